@@ -42,6 +42,27 @@ def contexts(name_text):
     ]
 
 
+def paren_collision(T, le):
+    """Returns (key, text) when an alias of the table does not resolve to the license that declares it, None otherwise."""
+    try:
+        L = make_licensing(T, form='sym')
+    except ValueError:
+        return None          # the table is refused as ambiguous: nothing to resolve
+    for key, als, _ in T:
+        for a in als:
+            try:
+                got = L.parse(a)
+            except le.ExpressionError as ex:
+                return ('recognise', 'alias %r of %r does not parse: %s' % (a, key, ex))
+            if not isinstance(got, le.LicenseSymbol) or got.key != key:
+                others = [k for k, als2, _ in T if k != key and any(gen.lw(x) == gen.lw(a) for x in als2)]
+                if others and isinstance(got, le.LicenseSymbol) and got.key in others:
+                    return ('alias-parenthesis-spacing-collision',
+                            'the table %r is accepted, and the alias %r of %r resolves to %r' % (T, a, key, got.key))
+                return ('recognise', 'alias %r of %r resolves to %r' % (a, key, got))
+    return None
+
+
 def run(rep, tier, seed):
     le = imp()
     rng = random.Random(seed)
@@ -290,6 +311,16 @@ def run(rep, tier, seed):
         rep.compared += 1
         if r != got and len(rep.broken) < 5:
             rep.broken.append('correspondence C04/prefix: table %r text %r model %r implementation %r' % (T, text, r, got))
+    # two licenses whose aliases differ only by the white space around a parenthesis: the constructor compares aliases as
+    # space-normalised texts and accepts the table, the matcher stores both under the same words and the later one wins
+    # (known finding D11: reported under its own key, any other failure of this probe under another)
+    for first, second in ((('A', 'gpl (v2)'), ('B', 'gpl(v2)')), (('B', 'gpl(v2)'), ('A', 'gpl (v2)'))):
+        T = [(first[0], [first[1]], False), (second[0], [second[1]], False)]
+        rep.case(('paren-spacing', repr(T)), nontrivial=True, sample=None)
+        rep.count('parenthesis_spacing_alias_pairs')
+        what = paren_collision(T, le)
+        if what:
+            rep.violations.append({'key': what[0], 'kind': 'paren-collision', 'table': T, 'text': first[1], 'what': what[1]})
     # operator words inside longer words are not operators; longest wins, leftmost on a tie
     probes = [
         ([('mit', [], False)], 'orgpl and android', [1, [[0, [0, [enc_str('orgpl'), 0]]], [0, [0, [enc_str('android'), 0]]]]]),
@@ -319,6 +350,13 @@ def run(rep, tier, seed):
 
 
 def replay(payload):
+    if payload.get('kind') == 'paren-collision':
+        what = paren_collision([(k, a, e) for k, a, e in payload['table']], imp())
+        return what is None, what[1] if what else 'every alias resolves to the license that declares it'
+    return replay_text(payload)
+
+
+def replay_text(payload):
     T = [tuple(x) for x in payload['table']]
     T = [(k, a, e) for k, a, e in T]
     L = make_licensing(T)
